@@ -19,6 +19,10 @@ Decided structurally:
                 keywords under which tidy_model calls tidy_punch (flags such as new_model expanded to their keycount
                 disjunctions); otherwise a definition delivered in the same call as the block stays unresolved while the same
                 text delivered in a later call is resolved (the wrapper forces a re-tidy at the start of every call)
+  C04.restore   options persist between calls until redefined: engine code that temporarily overrides a member (save it in a
+                local, override, put the local back) keeps the three steps loop-coherent - a save executed inside a loop has its
+                restore inside that same loop; otherwise a later iteration saves the overridden value and the "restore" makes
+                the override permanent (e.g. PRINT -selected_output false switched back on when two blocks write headings)
   C04.forced    the only per-call forced flag, SelectedOutput::new_def, may steer heading output only: engine code that is
                 control-dependent on it writes no SelectedOutput data (name -> pointer resolution etc.) and no engine member
                 other than the print/punch switches
@@ -244,6 +248,7 @@ def run(P, R, tier):
     forced_rule(P, R, tab)
     counter_rule(P, R, tab)
     retidy_rule(P, R)
+    restore_rule(P, R)
 
 
 def forced_rule(P, R, tab):
@@ -483,3 +488,55 @@ def retidy_rule(P, R):
             R.violation("C04.retidy", kw, "%s can define a species / phase / master species (via %s) but tidy_model does not call tidy_punch when only this keyword is present: a "
                         "SELECTED_OUTPUT name defined later in the same call stays unresolved, while in a separate call the wrapper's forced re-tidy resolves it"
                         % (kw, reader), line=call[1], **where)
+
+
+def restore_rule(P, R):
+    R.rule("C04.restore", "engine save/override/restore idioms are loop-coherent: a save inside a loop has its restore inside the same loop", minimum=20)
+    LOOPS = ("For", "While", "Do", "RangeFor")
+
+    def mpath(n):
+        n = T.strip_casts(n)
+        if T.is_node(n) and n[0] == "Member":
+            return T.text(n).replace(" ", "")
+        return None
+    cnt = 0
+    for key, f in sorted(P.functions.items()):
+        if not f["q"].startswith("Phreeqc::"):
+            continue
+        saves, restores = {}, []
+
+        def rec(n, loops):
+            if not T.is_node(n):
+                return
+            if n[0] in LOOPS:
+                for c in T.children(n):
+                    rec(c, loops + [n[1]])
+                return
+            if n[0] == "Bin" and n[2] == "=":
+                l, r = T.strip_casts(n[3]), T.strip_casts(n[4])
+                if l[0] == "Ref" and l[2] == "local" and mpath(r):
+                    saves.setdefault((l[3], mpath(r)), []).append((n[1], tuple(loops)))
+                if r[0] == "Ref" and r[2] == "local" and mpath(l):
+                    restores.append((r[3], mpath(l), n[1], tuple(loops)))
+            if n[0] == "Decl":
+                for d in n[2]:
+                    if T.is_node(d[2]) and mpath(d[2]):
+                        saves.setdefault((d[0], mpath(d[2])), []).append((n[1], tuple(loops)))
+            for c in T.children(n):
+                rec(c, loops)
+        rec(f["body"], [])
+        for loc, m, line, loops in restores:
+            sv = [s_ for s_ in saves.get((loc, m), []) if s_[0] < line]
+            if not sv:
+                continue
+            cnt += 1
+            inst = "%s:%s@%d" % (f["q"].split("::")[-1], m.split(".")[-1], line)
+            bad = [s_ for s_ in sv if not (len(s_[1]) <= len(loops) and loops[:len(s_[1])] == s_[1])]
+            if bad:
+                R.violation("C04.restore", inst, "`%s` is saved in `%s` inside the loop at line %d (line %d) but put back at line %d outside that loop: from the second iteration on the saved "
+                            "value is the overridden one, and the restore makes the temporary value permanent" % (m, loc, bad[0][1][-1], bad[0][0], line),
+                            file=f["file"], line=line, function=f["q"])
+            else:
+                R.ok("C04.restore", inst, "save (line %s) and restore in the same loop nest" % ",".join(str(s_[0]) for s_ in sv))
+    if cnt < 20:
+        R.anchor_missing("C04.restore", "only %d save/restore idioms found in the engine" % cnt)
